@@ -53,6 +53,9 @@ func init() {
 		runs := []WorldRun{
 			{World: "pay", Quick: b(1, 1, 2), Thorough: b(2, 2, 2), MenuFilter: noReplay, OneEnv: true},
 			{World: "coin", Quick: b(1, 1, 2), Thorough: b(2, 2, 2), OneEnv: true},
+			{World: "pool", Quick: b(1, 1, 1), Thorough: b(2, 2, 2), OneEnv: true},
+			{World: "book", Quick: b(1, 1, 1), Thorough: b(2, 2, 2), OneEnv: true},
+			{World: "stake", Quick: b(1, 1, 1), Thorough: b(2, 2, 2), OneEnv: true},
 		}
 		for i := range runs {
 			runs[i].OnTransition = func(t *explore.Transition, newState bool) []explore.Violation {
